@@ -552,15 +552,23 @@ pub fn worker(ctx: &WorkerCtx) -> WorkerReport {
                 }
             }
             // lock-order cycles over distinct locks
-            let mut edges: BTreeSet<(String, String)> = BTreeSet::new();
+            // edge: (held lock, held mode) -> (wanted lock, wanted mode), with the sites
+            let mut edges: BTreeSet<(String, String, String, String, String, String)> = BTreeSet::new();
             for (n, _, _) in &out.nests {
                 if !n.same_lock && n.outer_lock != n.inner_lock {
-                    edges.insert((n.outer_lock.clone(), n.inner_lock.clone()));
+                    edges.insert((n.outer_lock.clone(), n.outer_mode.clone(), n.inner_lock.clone(), n.inner_mode.clone(), n.outer_site.clone(), n.inner_site.clone()));
                 }
             }
-            for (a, b) in &edges {
-                if edges.contains(&(b.clone(), a.clone())) && a < b {
-                    violation(&mut rep, "C11", ctx.seed, &format!("lock-order-cycle:{}<->{}", a, b), format!("locks {} and {} are acquired in both orders", a, b), json!({"edges": edges}));
+            let mut reported: BTreeSet<(String, String)> = BTreeSet::new();
+            for (a, am, b, bm, s1, s2) in &edges {
+                for (b2, bm2, a2, am2, s3, s4) in &edges {
+                    // T1 holds a(am) wants b(bm); T2 holds b(bm2) wants a(am2): blocks for good iff the two
+                    // uses of each lock conflict (at least one of them is a write)
+                    if a == a2 && b == b2 && a < b && (am == "Write" || am2 == "Write") && (bm == "Write" || bm2 == "Write") && reported.insert((a.clone(), b.clone())) {
+                        violation(&mut rep, "C11", ctx.seed, &format!("lock-order-cycle:{}<->{}", a, b),
+                            format!("locks {} and {} are acquired in both orders with conflicting modes: {} {} held at {} while {} {} is requested at {}, and {} {} held at {} while {} {} is requested at {}", a, b, a, am, s1, b, bm, s2, b, bm2, s3, a, am2, s4),
+                            json!({"thread1": {"holds": [a, am, s1], "wants": [b, bm, s2]}, "thread2": {"holds": [b2, bm2, s3], "wants": [a2, am2, s4]}}));
+                    }
                 }
             }
             for s in &out.self_deadlocks {
